@@ -14,7 +14,7 @@ TB = ('Trusted base: Lean 4.33.0 kernel; axioms propext / Classical.choice / Quo
 CLAIMS = {
     'C01': dict(
         category='proof',
-        technique='Lean 4 theorems (enc32_sound, enc32_inj) over a Python-shaped model + exhaustive/boundary differential correspondence + Lean-spec decode oracle',
+        technique='Lean 4 theorems (enc32_sound, enc32_inj) over a Python-shaped model + exhaustive/boundary differential correspondence + Lean-spec decode oracle + cross-check of that specification and of the emitted bytes against LLVM 14 (llvm-mc)',
         text=('Theorems: for every one of the 66 32-bit rows of the instruction table (proved equal to the live module\'s '
               'INSTRUCTIONS by a decide-checked generated table), every accepted argument list denotes legal operands and '
               'the word decodes under the ISA-manual specification to the instruction the source named (enc32_sound); the '
@@ -28,7 +28,7 @@ CLAIMS = {
         ref='DESIGN.md §5 C01'),
     'C02': dict(
         category='proof',
-        technique='Lean 4 theorems over the RVC encoder model + complete enumeration of operand tuples and of all 65 536 halfwords against the real code',
+        technique='Lean 4 theorems over the RVC encoder model + complete enumeration of operand tuples and of all 65 536 halfwords against the real code + cross-check of the RVC specification decoder (all halfwords) and of the emitted bytes against LLVM 14 (llvm-mc)',
         text=('Every operand tuple in and 8 steps outside each RV32C legal set (complete enumeration, ~0.5 M calls) is run '
               'through the real encoder, the Lean model and the Lean RVC specification (decode16 of the emitted halfword must '
               'be what the source named); in the reverse direction all 65 536 halfwords are decoded by the specification and '
